@@ -607,7 +607,17 @@ class Segment:
                 return Effect('OUT_CALL', site, recv=recv, name=name, args=args)
             if rt[0] == 'param':
                 return Effect('OUT_CALL', site, recv=recv, name=name, args=args)
+            if rt[0] == 'field' and rt[1] in getattr(r, 'inert', ()):
+                return Effect('INERT_CALL', site, recv=recv, name=name, args=args)
             return Effect('OTHER_CALL', site, recv=recv, name=name, args=args)
+        if k == 'atomic':
+            from symex import root_of
+            rt = root_of(e[1])
+            if rt[0] == 'field' and rt[1] in getattr(r, 'inert', ()):
+                return Effect('INERT_CALL', e[5], recv=e[1], name=e[2], args=e[3])
+            if rt[0] in ('local', 'param'):
+                return Effect('OUT_CALL', e[5], recv=e[1], name=e[2], args=e[3])
+            return Effect('OTHER_CALL', e[5], recv=e[1], name=e[2], args=e[3]) if e[6] == 'W' else None
         if k == 'wr':
             loc, val, site = e[1], e[2], e[3]
             how = e[4] if len(e) > 4 else '='
@@ -641,11 +651,15 @@ class Segment:
                 return Effect('PERM_WR', site, pos=loc[2], val=val, how=how)
             from symex import root_of
             rt = root_of(loc)
+            if isinstance(loc, tuple) and len(loc) == 3 and loc[0] == 'fld' and ('.' + str(loc[2])) in getattr(r, 'inert', ()):
+                return Effect('INERT_WR', site, loc=loc, val=val, field=loc[2])
             if rt[0] == 'field':
                 if rt[1] in (getattr(r, 'config', None) or []):
                     return Effect('CFG', site, field=rt[1], val=val, direct=(loc == THIS(rt[1])))
                 if rt[1] in (getattr(r, 'rng', None) or []):
                     return Effect('RNG_STATE', site, field=rt[1])
+                if rt[1] in getattr(r, 'inert', ()):
+                    return Effect('INERT_WR', site, loc=loc, val=val, field=rt[1])
                 return Effect('OTHER_WR', site, loc=loc, val=val, field=rt[1])
             if rt[0] == 'param':
                 return Effect('OUT_WR', site, loc=loc, val=val)
@@ -745,7 +759,7 @@ class Segment:
 
     def state_effects(self):
         """effects on container state (not locals / outputs / clock)"""
-        return [e for e in self.effects if e.kind not in ('LOCAL', 'OUT_WR', 'OUT_CALL', 'CLOCK')]
+        return [e for e in self.effects if e.kind not in ('LOCAL', 'OUT_WR', 'OUT_CALL', 'CLOCK', 'INERT_WR', 'INERT_CALL')]
 
     def valuation(self):
         out = []
